@@ -49,7 +49,9 @@ fn viol(rep: &mut Report, kind: Kind, key: &str, what: String, case: String, got
 }
 
 /// (1) wait sequences
-fn clock_level(o: &Opts, model: &mut Model, rep: &mut Report, only: Option<(bool, Vec<usize>)>) {
+fn clock_level(o: &Opts, model: &mut Model, rep: &mut Report, only3: Option<(bool, Vec<usize>, Vec<u8>)>) {
+    let only: Option<(bool, Vec<usize>)> = only3.as_ref().map(|(a, b, _)| (*a, b.clone()));
+    let only_pre = only3.clone();
     let mut rng = Rng::new(o.seed ^ 0x05);
     let runs = if only.is_some() { 1 } else { o.n(60, 5000) };
     for run in 0..runs {
@@ -81,6 +83,24 @@ fn clock_level(o: &Opts, model: &mut Model, rep: &mut Report, only: Option<(bool
         let l = frame_len(m128);
         let mut e = emu(&Cfg::new(m128));
         let mut lines = vec![format!("new {}", if m128 { 128 } else { 48 })];
+        // the frame length belongs to the machine, not to its paging state: on the 128K every other run
+        // starts after paging writes, some of them locking (bit 5)
+        let pre: Vec<u8> = if m128 && only.is_none() && r.bool() {
+            (0..r.range(1, 3)).map(|_| r.u8() & 0x3F).collect()
+        } else if let Some((_, _, p)) = &only_pre {
+            p.clone()
+        } else {
+            vec![]
+        };
+        for v in &pre {
+            e.verif_write_io(0x7FFD, *v);
+            lines.push(format!("out {:02x}", v));
+        }
+        if !pre.is_empty() {
+            e.verif_set_frame_clocks(0);
+            lines.push("clk 0".into());
+        }
+        let base_lines = lines.len();
         let mut obs = vec![];
         let mut total = 0usize;
         for w in &waits {
@@ -101,7 +121,8 @@ fn clock_level(o: &Opts, model: &mut Model, rep: &mut Report, only: Option<(bool
             if *fc < 40 || l.saturating_sub(*fc) < 40 {
                 rep.class(format!("{} offset {} int {}", m128, fc, int));
             }
-            let case = format!("waits {} {}", if m128 { 128 } else { 48 }, waits[..=i].iter().map(|w| format!("{:x}", w)).collect::<Vec<_>>().join(","));
+            let case = format!("waits {} {} {}", if m128 { 128 } else { 48 }, waits[..=i].iter().map(|w| format!("{:x}", w)).collect::<Vec<_>>().join(","),
+                pre.iter().map(|v| format!("{:02x}", v)).collect::<Vec<_>>().join(","));
             if got != spec {
                 // shrink: the prefix up to here is the failing history; keep it as it is (already minimal in length
                 // for the first failure)
@@ -110,9 +131,9 @@ fn clock_level(o: &Opts, model: &mut Model, rep: &mut Report, only: Option<(bool
                     case, got, spec);
                 break;
             }
-            if got != answers[i + 1] {
-                viol(rep, Kind::ModelMismatch, "C05/clock/model", format!("after waits summing to {} T: {} vs model {}", tot, got, answers[i + 1]),
-                    case, got, answers[i + 1].clone());
+            if got != answers[i + base_lines] {
+                viol(rep, Kind::ModelMismatch, "C05/clock/model", format!("after waits summing to {} T: {} vs model {}", tot, got, answers[i + base_lines]),
+                    case, got, answers[i + base_lines].clone());
                 break;
             }
         }
@@ -138,6 +159,11 @@ fn conservation(o: &Opts, rep: &mut Report, only: Option<(bool, usize, usize)>) 
     for (m128, frames, per_call) in cases {
         let l = frame_len(m128);
         let mut e = emu(&Cfg::new(m128));
+        // every other 128K run has its paging locked first (48K-BASIC style latch 0x30, or other banks)
+        let lock: Option<u8> = if m128 && (frames + per_call) % 2 == 0 { Some([0x30u8, 0x27, 0x3F, 0x20][frames % 4]) } else { None };
+        if let Some(v) = lock {
+            e.verif_write_io(0x7FFD, v);
+        }
         load(&mut e, 0x8000, &[0xF3, 0x03, 0xC3, 0x01, 0x80]);
         start(&mut e, 0x8000);
         let mut done = 0;
@@ -160,31 +186,63 @@ fn conservation(o: &Opts, rep: &mut Report, only: Option<(bool, usize, usize)>) 
             viol(rep, Kind::SpecViolated, "C05/conservation/pc", format!("counting loop left its code: PC={:04x}", pc), case, format!("{:04x}", pc), "8001|8002".into());
         } else if executed != frames * l + fc || fc >= 10 {
             viol(rep, Kind::SpecViolated, "C05/conservation/lost-tstates",
-                format!("{} after {} frames ({} per call): program executed {} T but frames*L+offset = {}*{}+{} = {}",
-                    if m128 { "128K" } else { "48K" }, frames, per_call, executed, frames, l, fc, frames * l + fc),
+                format!("{}{} after {} frames ({} per call): program executed {} T but frames*L+offset = {}*{}+{} = {}",
+                    if m128 { "128K" } else { "48K" }, lock.map(|v| format!(" (paging locked by {:02x})", v)).unwrap_or_default(), frames, per_call, executed, frames, l, fc, frames * l + fc),
                 case, format!("{}", executed), format!("{}", frames * l + fc));
         }
     }
 }
 
-/// (2b) one interrupt per frame: IM 2 handler (73 T, longer than the 32-T pulse) counting in RAM
+struct RomPages(Vec<VAsset>);
+impl rustzx_core::host::RomSet for RomPages {
+    type Asset = VAsset;
+    fn format(&self) -> rustzx_core::host::RomFormat {
+        rustzx_core::host::RomFormat::Binary16KPages
+    }
+    fn next_asset(&mut self) -> Option<VAsset> {
+        if self.0.is_empty() {
+            None
+        } else {
+            Some(self.0.remove(0))
+        }
+    }
+}
+
+/// (2b) one interrupt per frame: handler (73 T, longer than the 32-T pulse) counting in RAM, in all
+/// three interrupt modes (IM 0/1 through a host-supplied ROM with the handler at 0x0038; mode 3 here =
+/// the reset default, no IM instruction executed), also on a 128K whose paging is locked
 fn interrupts(o: &Opts, rep: &mut Report, only: Option<(bool, bool, usize)>) {
     let mut cases = vec![];
     if let Some(c) = only {
-        cases.push(c);
+        for im in 0..4usize {
+            cases.push((c.0, c.1, c.2, im));
+        }
     } else {
         for m128 in [false, true] {
             for halted in [false, true] {
                 for frames in 2..=(o.n(12, 60) as usize) {
-                    cases.push((m128, halted, frames));
+                    cases.push((m128, halted, frames, frames % 4));
                 }
             }
         }
     }
-    for (m128, halted, frames) in cases {
+    for (m128, halted, frames, im) in cases {
         let mut e = emu(&Cfg::new(m128));
-        // 8000: DI; LD A,81; LD I,A; IM 2; EI; loop: (HALT | INC DE); JR loop
-        load(&mut e, 0x8000, &[0xF3, 0x3E, 0x81, 0xED, 0x47, 0xED, 0x5E, 0xFB, if halted { 0x76 } else { 0x13 }, 0x18, 0xFD]);
+        if m128 && frames % 3 == 0 {
+            e.verif_write_io(0x7FFD, 0x20 | (frames as u8 & 7));
+        }
+        // ROM: handler at 0x0038 jumps to the RAM handler at 0x9000 (for IM 0 / IM 1)
+        let mut rom = vec![0u8; 16384];
+        rom[0x38] = 0xC3;
+        rom[0x39] = 0x00;
+        rom[0x3A] = 0x90;
+        let pages = if m128 { vec![VAsset::new(rom.clone()), VAsset::new(rom)] } else { vec![VAsset::new(rom)] };
+        if e.load_rom(RomPages(pages)).is_err() {
+            panic!("load_rom failed on a well-formed ROM set");
+        }
+        // 8000: DI; LD A,81; LD I,A; IM n (or nothing); EI; loop: (HALT | INC DE); JR loop
+        let imop: [u8; 2] = match im { 0 => [0xED, 0x46], 1 => [0xED, 0x56], 2 => [0xED, 0x5E], _ => [0x00, 0x00] };
+        load(&mut e, 0x8000, &[0xF3, 0x3E, 0x81, 0xED, 0x47, imop[0], imop[1], 0xFB, if halted { 0x76 } else { 0x13 }, 0x18, 0xFD]);
         // vector 81FF -> 9000
         load(&mut e, 0x81FF, &[0x00, 0x90]);
         // 9000: PUSH HL; LD HL,(A000); INC HL; LD (A000),HL; POP HL; EI; RET
@@ -197,15 +255,15 @@ fn interrupts(o: &Opts, rep: &mut Report, only: Option<(bool, bool, usize)>) {
             counts.push(e.peek(0xA000) as usize + 256 * e.peek(0xA001) as usize);
         }
         rep.eval();
-        rep.class(format!("int-count {} halted={} frames={}", m128, halted, frames));
-        rep.count("programs", if halted { "IM2 counter, HALT loop" } else { "IM2 counter, busy loop" });
+        rep.class(format!("int-count {} halted={} frames={} im={}", m128, halted, frames, im));
+        rep.count("programs", format!("interrupt counter im={} {}", if im == 3 { "reset-default".to_string() } else { im.to_string() }, if halted { "HALT loop" } else { "busy loop" }));
         // the interrupt of a frame start is accepted by the first instruction step of that frame; a call
         // returns at the first instruction boundary after the frame end, so after k frames k-1 were taken
         let ok = counts.iter().enumerate().all(|(k, c)| *c == k);
         if !ok {
             viol(rep, Kind::SpecViolated, "C05/int-per-frame",
-                format!("{} {} loop: interrupts counted after 1..{} frames = {:?}, expected exactly one per frame start (0,1,2,…)",
-                    if m128 { "128K" } else { "48K" }, if halted { "HALT" } else { "busy" }, frames, counts),
+                format!("{} {} loop, interrupt mode {}: interrupts counted after 1..{} frames = {:?}, expected exactly one per frame start (0,1,2,…)",
+                    if m128 { "128K" } else { "48K" }, if halted { "HALT" } else { "busy" }, if im == 3 { "after reset".to_string() } else { im.to_string() }, frames, counts),
                 format!("ints {} {} {}", if m128 { 128 } else { 48 }, halted as u8, frames), format!("{:?}", counts), "0,1,2,...".into());
         }
     }
@@ -273,7 +331,8 @@ edge, INT level) clock observations + distinct program/slicing/offset cases".int
         match t.first().copied() {
             Some("waits") => {
                 let w = t.get(2).unwrap_or(&"").split(',').filter_map(|x| usize::from_str_radix(x, 16).ok()).collect();
-                clock_level(o, &mut model, &mut rep, Some((m128, w)));
+                let pre = t.get(3).unwrap_or(&"").split(',').filter_map(|x| u8::from_str_radix(x, 16).ok()).collect();
+                clock_level(o, &mut model, &mut rep, Some((m128, w, pre)));
             }
             Some("conserve") => conservation(o, &mut rep, Some((m128, n(2), n(3)))),
             Some("ints") => interrupts(o, &mut rep, Some((m128, n(2) == 1, n(3)))),
